@@ -68,6 +68,12 @@ impl<U: StunEndpointUser> StunEndpoint<U> {
         }
     }
 
+    /// verification hook: number of pending transactions
+    #[cfg(feature = "ezk-verif")]
+    pub fn verif_pending(&self) -> usize {
+        self.transactions.lock().len()
+    }
+
     pub fn user(&self) -> &U {
         &self.user
     }
